@@ -79,12 +79,13 @@ type Call struct {
 
 	// written through norace helpers only (several library goroutines touch
 	// them and the harness must not add happens-before edges between them)
-	ex        *Exchange
-	urlSeen   string
-	urlSet    bool
-	doCount   int
-	bodyClose int
-	hits      [NumPoints]int
+	ex           *Exchange
+	urlSeen      string
+	urlSet       bool
+	requestStart time.Time
+	doCount      int
+	bodyClose    int
+	hits         [NumPoints]int
 }
 
 // Points are the library's named yield points (verifYield call sites).
@@ -213,15 +214,34 @@ func Yield(ctx context.Context, point string) {
 	c.hit(i)
 	on := c.YieldOn[i]
 	slow := c.SlowOn[i]
-	if !on {
-		return
+	if on {
+		flags := 0
+		if slow {
+			flags = core.FlagSlow
+		}
+		c.S.GateOpt(c.ID+"/y/"+point, nil, flags)
 	}
-	flags := 0
-	if slow {
-		flags = core.FlagSlow
+	if point == "write.enter" || point == "closewrite.enter" {
+		// the first Write / CloseWrite is what starts the request: the instant
+		// it gets past this point is when the request headers are final
+		c.noteRequestStart(time.Now())
 	}
-	c.S.GateOpt(c.ID+"/y/"+point, nil, flags)
 }
+
+//go:norace
+//go:noinline
+func (c *Call) noteRequestStart(t time.Time) {
+	if c.requestStart.IsZero() {
+		c.requestStart = t
+	}
+}
+
+// RequestStart is the fake-clock instant at which the library started the
+// request (zero if it never did).
+//
+//go:norace
+//go:noinline
+func (c *Call) RequestStart() time.Time { return c.requestStart }
 
 // Exchange is one HTTP request/response pair.
 type Exchange struct {
